@@ -51,6 +51,7 @@ WAVE_NOTE = {
     16: "C03+C06, C13+C16, C17+C18, C02+C07, C01+C10, C08+C09",
     17: "free choice in the least-touched functions, cooperating sites, f32",
     18: "three agents: triggers that need a combination (array core, linalg / image, model / layers / optimizer)",
+    23: "two changes per agent: matmul operand combinations, scheduling of one pass, sums / reshapes / reduction of broadcast adjoints, in-place writes into buffers somebody still holds",
     22: "two changes per agent: identity-keyed shortcuts, Model / Layer internals, operators with plain numbers inside graphs, construction / indexing / equality, nonlinearities and costs",
     21: "more workflows, two changes per agent: several losses over shared parameters, shape plumbing, scopes / helper functions / long loops, explicit seeds, hand-written networks, f32 inside multi-step workflows",
     20: "realistic user workflows: inference loops, checkpoints / copies / logging, transfer learning and model surgery, custom optimisation, data pipelines, user-defined operations",
